@@ -231,6 +231,7 @@ pub fn finish(mut run: Run) -> i32 {
             ordered.push(f);
         }
     }
+    let _ = std::fs::remove_dir_all(verif_root().join("replays").join(&run.property));
     for (i, f) in ordered.iter().take(12).enumerate() {
         let dir = verif_root().join("replays").join(&run.property).join(format!(
             "{:02}-{:016x}",
